@@ -9,6 +9,7 @@ import Mathlib.Data.List.GetD
 import Mathlib.Tactic.Ring
 import Mathlib.Tactic.FieldSimp
 import Mathlib.Tactic.Linarith
+import Mathlib.Tactic.LinearCombination
 import QEModel.C19
 namespace QE.C19
 
@@ -234,6 +235,76 @@ theorem serDiv_delay (b a : List K) (d N : Nat) :
     have := hmain i (by rw [serDiv_length] at h1; exact h1)
     rw [List.getD_eq_getElem _ _ h1, List.getD_eq_getElem _ _ h2] at this
     exact this
+
+/-- **the series division is a division**: `a(x) · (b/a)(x) = b(x)` coefficient by coefficient (Cauchy product),
+    for every length and every `k` below it, whenever the leading coefficient `a₀` is non-zero -/
+theorem serDiv_spec (b a : List K) (N k : Nat) (hk : k < N) (ha : a.getD 0 0 ≠ 0) :
+    ∑ i ∈ Finset.range (k + 1), a.getD i 0 * (serDiv b a N).getD (k - i) 0 = b.getD k 0 := by
+  rw [Finset.sum_range_succ']
+  have hshift : ∀ i ∈ Finset.range k, a.getD (i + 1) 0 * (serDiv b a N).getD (k - (i + 1)) 0
+      = a.getD (i + 1) 0 * (serDiv b a N).getD (k - 1 - i) 0 := by
+    intro i _
+    rw [show k - (i + 1) = k - 1 - i by omega]
+  rw [Finset.sum_congr rfl hshift, Nat.sub_zero, serDiv_getD b a N k hk]
+  field_simp
+  ring
+
+/-- … and it is the **only** one: a sequence of length `N` whose Cauchy product with `a` reproduces `b` below `N`
+    is `serDiv b a N` -/
+theorem serDiv_unique (b a h : List K) (N : Nat) (hlen : h.length = N) (ha : a.getD 0 0 ≠ 0)
+    (hspec : ∀ k, k < N → ∑ i ∈ Finset.range (k + 1), a.getD i 0 * h.getD (k - i) 0 = b.getD k 0) :
+    h = serDiv b a N := by
+  have hmain : ∀ k, k < N → h.getD k 0 = (serDiv b a N).getD k 0 := by
+    intro k
+    induction k using Nat.strong_induction_on with
+    | _ k ih =>
+      intro hk
+      have e1 := hspec k hk
+      have e2 := serDiv_spec b a N k hk ha
+      rw [Finset.sum_range_succ'] at e1 e2
+      have hsum : ∑ i ∈ Finset.range k, a.getD (i + 1) 0 * h.getD (k - (i + 1)) 0
+          = ∑ i ∈ Finset.range k, a.getD (i + 1) 0 * (serDiv b a N).getD (k - (i + 1)) 0 := by
+        apply Finset.sum_congr rfl
+        intro i hi
+        have hi' : i < k := Finset.mem_range.mp hi
+        rw [ih (k - (i + 1)) (by omega) (by omega)]
+      rw [hsum, Nat.sub_zero] at e1
+      rw [Nat.sub_zero] at e2
+      have : a.getD 0 0 * h.getD k 0 = a.getD 0 0 * (serDiv b a N).getD k 0 := by
+        linear_combination e1 - e2
+      exact mul_left_cancel₀ ha this
+  apply List.ext_getElem
+  · rw [hlen, serDiv_length]
+  · intro i h1 h2
+    have := hmain i (by omega)
+    rw [List.getD_eq_getElem _ _ h1, List.getD_eq_getElem _ _ h2] at this
+    exact this
+
+theorem psi_eq_serDiv (φ θ : List K) (N : Nat) :
+    psi φ θ N = serDiv (1 :: θ) (1 :: φ.map fun x => -x) N := by
+  unfold psi serDiv
+  symm
+  apply unfoldHist_congr
+  intro hs k
+  exact divStep_eq_psiStep φ θ _ _ (fun _ => rfl) (fun _ => rfl) hs k
+
+/-- real coefficients: the value at the conjugate point is the conjugate value -/
+theorem polyEvalC_conj (coef : List K) (c s : K) :
+    (polyEvalC coef (c, -s)).1 = (polyEvalC coef (c, s)).1 ∧ (polyEvalC coef (c, -s)).2 = -(polyEvalC coef (c, s)).2 := by
+  induction coef with
+  | nil => simp [polyEvalC]
+  | cons x xs ih =>
+    have e1 : polyEvalC (x :: xs) (c, -s) = cadd (x, 0) (cmul (c, -s) (polyEvalC xs (c, -s))) := rfl
+    have e2 : polyEvalC (x :: xs) (c, s) = cadd (x, 0) (cmul (c, s) (polyEvalC xs (c, s))) := rfl
+    rw [e1, e2]
+    simp only [cadd, cmul, ih.1, ih.2]
+    constructor <;> ring
+
+theorem normSq_polyEvalC_conj (coef : List K) (c s : K) :
+    normSq (polyEvalC coef (c, -s)) = normSq (polyEvalC coef (c, s)) := by
+  unfold normSq
+  rw [(polyEvalC_conj coef c s).1, (polyEvalC_conj coef c s).2]
+  ring
 
 end field
 end QE.C19
